@@ -44,6 +44,13 @@ LOCAL_KNOWN = {
                                  "op of a batch and afterwards still the old value of its last op",
     "KF_FJALL_CLOSE_HANG": "dropping the last handle of a Fjall database did not return within the watchdog "
                            "(fjall 3.0.1 DatabaseInner::drop keeps sending Close while active_thread_counter > 0)",
+    "KF_FJALL_CLOSE_RACE_LOSES_BATCH": "Fjall under CPU contention: after dropping every handle and opening the same directory "
+                                       "again the batches committed last are missing. fjall.rs commits with durability(None) "
+                                       "(the batch stays in the journal's BufWriter until Journal::drop persists it); fjall 3.0.1 "
+                                       "worker threads decrement active_thread_counter BEFORE their closure drops its Supervisor "
+                                       "clone (worker_pool.rs), so DatabaseInner::drop returns while a descheduled worker still owns "
+                                       "the Arc<Journal>, and the reopen recovers the journal file without the buffered tail. Same "
+                                       "shutdown protocol as KF_FJALL_CLOSE_HANG; not reproducible when the run is repeated alone",
 }
 
 MAX_VIOLATION_FILES = 12      # further wrong reads of one run are counted, not written
@@ -258,9 +265,37 @@ def alias_signature(res, f):
     return ids.pop() if len(ids) == 1 else None
 
 
+def _after_reopen(f, case):
+    """The wrong read belongs to the comparison that follows a close / reopen."""
+    at = f.get("at", "")
+    if at in ("after close and reopen", "after final close and reopen"):
+        return True
+    ev = case["events"]
+    st = f.get("step", 0)
+    return at == "read everything" and 2 <= st <= len(ev) and ev[st - 2]["a"] == "reopen"
+
+
+def _passes_alone(case, fam, backend, stats, attempts=2):
+    """Repeat one run on its own (one thread, nothing beside it)."""
+    if not stats.get("recheck"):
+        return False
+    bd, wd, tmp = stats["recheck"]
+    p = os.path.join(wd, "recheck.ndjson")
+    with open(p, "w") as fh:
+        fh.write(json.dumps(case) + "\n")
+    for i in range(attempts):
+        out = os.path.join(wd, "recheck.result")
+        kv_replay(bd, "--cases", p, "--out", out, "--fams", fam, "--backends", backend, "--tmp", tmp, "--threads", 1)
+        res = [json.loads(l) for l in open(out) if l.strip()]
+        if any(x["kind"] == "violation" for r in res if not r.get("summary") for x in r["findings"]):
+            return False
+    return True
+
+
 def classify(results, cases_path, verdict, status, stats):
     cases = None
     for res in results:
+        close_race = None      # verdict of the repetition, once per run
         if res.get("summary"):
             stats["runs"] += res["runs"]
             stats["reads_compared"] += res["checks"]
@@ -283,6 +318,17 @@ def classify(results, cases_path, verdict, status, stats):
                 continue
             if cases is None:
                 cases = [json.loads(l) for l in open(cases_path) if l.strip()]
+            # Fjall only: content missing right after a close / reopen that is there when the run is repeated alone
+            kid = "KF_FJALL_CLOSE_RACE_LOSES_BATCH"
+            if res["backend"] == "fjall" and f["kind"] == "violation" and status.get(kid) == "known" and \
+                    all(_after_reopen(x, cases[res["case"]]) for x in res["findings"] if x["kind"] == "violation"):
+                if close_race is None:
+                    close_race = _passes_alone(cases[res["case"]], res["fam"], "fjall", stats)
+                if close_race:
+                    verdict.known_finding(kid, LOCAL_KNOWN[kid])
+                    stats["kf_samples"].setdefault(kid, {"fam": res["fam"], "backend": "fjall", "case": res["case"],
+                                                         "finding": f, "behaviour": cases[res["case"]]})
+                    continue
             ft = bool(cases[res["case"]].get("ft"))
             # the first-touch behaviours are replayed under every family with the same abstract content
             key = ("firsttouch" if ft else res["fam"], res["backend"], f.get("read"),
@@ -431,6 +477,7 @@ def run(tier, seed):
     verdict = vp.Verdict(PID)
     status = known_status()
     stats = new_stats()
+    stats["recheck"] = (bd, wd, tmp)
     try:
         # TLC first (not beside the replay: CPU contention is what triggers
         # fjall's close hang), in two lanes: the exhaustive runs of the
@@ -443,7 +490,7 @@ def run(tier, seed):
         else:
             gens = [("k4", 4, 2, 3, 40, 1000), ("k4long", 4, 2, 3, 70, 300), ("k2", 2, 2, 2, 30, 400),
                     ("k3", 3, 2, 3, 50, 300), ("unit", 1, 2, 3, 24, 200), ("unit0", 1, 1, 1, 16, 60)]
-            per_case, ft_per_case = 0, 3
+            per_case, ft_per_case = 0, 2
 
         def lane_reference():
             return model_check(coverage=not quick), asis_switches(), first_touch_mutation()
